@@ -15,3 +15,5 @@ def check(rep, tier):
     rep.run(core_rules.run, rep, tier, parts=("defjvp",))
     from contracts import value_transparency
     rep.run(value_transparency.run, rep, tier)
+    from contracts import vspaces
+    rep.run(vspaces.run_exact, rep, tier)     # VS-zero: the zero a rule-less / pruned path returns is the zero OF THE ARGUMENT'S SPACE (shape, dtype)
